@@ -234,6 +234,9 @@ func main() {
 		return h
 	}
 	if *replayF != "" {
+		if abs, err := filepath.Abs(*replayF); err == nil {
+			*replayF = abs // the harness runs in its scratch directory
+		}
 		os.Exit(doReplay(harnessOf(*replayF), *replayF))
 	}
 
@@ -363,6 +366,9 @@ func buildHarness(harness string) string {
 	args := []string{"-out", outDir, "-repo", repoDir, "-verif", verifDir, "-mount", strings.Join(hc.Mounts, ",")}
 	if hc.RootPkgs != "" {
 		args = append(args, "-pkgs", hc.RootPkgs)
+	}
+	if hc.TickPkgs != "" {
+		args = append(args, "-tickpkgs", hc.TickPkgs)
 	}
 	if hc.DevPkgs != "" {
 		args = append(args, "-godevpkgs", hc.DevPkgs)
